@@ -861,31 +861,36 @@ def remember(r: Rat):
     return r
 
 
-def case_zero(p: Poly, groups=None) -> bool:
+def case_zero(p: Poly, groups=None, _budget=None) -> bool:
     """p == 0 for every sign of every indicator argument.
-    For each group (argument x): three cases  x>0, x<0, x==0; in the last case, if x is a bare
-    atom (or  c*atom), that atom is set to 0 as well."""
-    if groups is None:
-        groups = indicator_groups(p)
-    gkeys = list(groups)
-    if len(gkeys) > 8:
-        raise OverflowError("too many indicator groups for a case split: %d" % len(gkeys))
-    for choice in _product(('>0', '<0', '==0'), repeat=len(gkeys)):
+    Recursive three-way split on one argument x at a time (x>0, x<0, x==0; in the last case, if x is a bare atom,
+    that atom is set to 0 as well); after each substitution only the groups still present are split further."""
+    if p.is_zero():
+        return True
+    if _budget is None:
+        _budget = [60000]
+    groups = indicator_groups(p)
+    if not groups:
+        return False
+    _budget[0] -= 1
+    if _budget[0] < 0:
+        raise OverflowError("indicator case split exceeds its budget")
+    # split on the group with most occurrences first
+    gk = max(groups, key=lambda g: len(groups[g]))
+    for rel in ('>0', '<0', '==0'):
         mp = {}
-        for gk, rel in zip(gkeys, choice):
-            for r in ('>0', '<0', '==0'):
-                aid = _ATOM_ID.get(('ind', r, gk))
-                if aid is not None:
-                    mp[aid] = Poly.const(1 if r == rel else 0)
-            if rel == '==0':
-                # argument itself vanishes: only usable if the argument is (a multiple of) an atom
-                arg = gk if isinstance(gk, Rat) else _RAT_BY_KEY.get(gk)
-                if arg is not None and not arg.den and len(arg.num.t) == 1:
-                    (m, _c), = arg.num.t.items()
-                    if len(m) == 1 and m[0][1] == 1:
-                        mp[m[0][0]] = Poly({})
+        for r in ('>0', '<0', '==0'):
+            aid = _ATOM_ID.get(('ind', r, gk))
+            if aid is not None:
+                mp[aid] = Poly.const(1 if r == rel else 0)
+        if rel == '==0':
+            arg = gk if isinstance(gk, Rat) else _RAT_BY_KEY.get(gk)
+            if arg is not None and arg.is_poly() and len(arg.num.t) == 1:
+                (m, _c), = arg.num.t.items()
+                if len(m) == 1 and m[0][1] == 1:
+                    mp[m[0][0]] = Poly({})
         q = p.subs(mp)
-        if not q.is_zero():
+        if not case_zero(q, None, _budget):
             return False
     return True
 
